@@ -15,6 +15,8 @@ import Ymq.Lemmas.Mg64
 import Ymq.Lemmas.MillerTz
 import Ymq.Lemmas.ZmodNNew
 import Ymq.Lemmas.M128
+import Ymq.Model.Mg64Inv
+import Ymq.Lemmas.ArithGcd
 
 namespace Ymq.C07
 
@@ -92,6 +94,62 @@ theorem mg2adicInv_spec (n : Nat) (hodd : n % 2 = 1) :
 /-- non-vacuity: the hypotheses are met by n = 7, ninv = 10540996613548315209. -/
 example : (7 * 10540996613548315209 + 1) % W = 0 ∧ mgMul 7 10540996613548315209 3 5 = some 4 ∧
     4 * W % 7 = 3 * 5 % 7 := by decide
+
+/-- `mg_inv(n, ninv, r2, x)` (64-bit inversion in Montgomery form: input `x = a·R`, output `R/a`), for
+every odd `n < 2^64`, valid `ninv`, any words `r2`, `x`: no panic site of `mg_redc`, `inv_mod64`
+(C08 model and theorem `invMod64_spec`, i128 extended Euclid after the repair dd3553b) or `mg_mul` is
+reached; the call returns `None` exactly when `gcd(x, n) ≠ 1`, and otherwise `r < n` with
+`r·x ≡ r2 (mod n)` — with the intended `r2 = R² mod n` this is `r·x ≡ R²`, i.e. `r = (x/R)⁻¹·R`. -/
+theorem mgInv_spec (n ninv r2 x : Nat) (hodd : n % 2 = 1) (hnW : n < W)
+    (hninv : (n * ninv + 1) % W = 0) (hr2 : r2 < W) (hx : x < W) :
+    (Nat.gcd x n = 1 → ∃ r, mgInv n ninv r2 x = some (some r) ∧ r < n ∧ r * x % n = r2 % n) ∧
+    (Nat.gcd x n ≠ 1 → mgInv n ninv r2 x = some none) := by
+  have hn : 0 < n := by omega
+  have hW64 : W = 2 ^ 64 := W_eq
+  have hcop : Nat.Coprime W n := by
+    have h2 : Nat.Coprime n 2 := Ymq.ZmodN.coprime_two_of_odd n hodd
+    rw [hW64]; exact (Nat.Coprime.pow_right 64 h2).symm
+  obtain ⟨mm, e1, e2, e3⟩ := mgRedc_spec n ninv x hn hnW hninv
+    (lt_of_lt_of_le hx (Nat.le_mul_of_pos_left W hn))
+  -- gcd(mm, n) = gcd(x, n)
+  have hg : Nat.gcd mm n = Nat.gcd x n := by
+    have h1 : Nat.gcd (mm * W) n = Nat.gcd mm n := Nat.Coprime.gcd_mul_right_cancel mm hcop
+    have h2 : Nat.gcd (mm * W % n) n = Nat.gcd (mm * W) n := by
+      rw [← Nat.gcd_rec, Nat.gcd_comm]
+    have h3 : Nat.gcd (x % n) n = Nat.gcd x n := by
+      rw [← Nat.gcd_rec, Nat.gcd_comm]
+    rw [← h1, ← h2, e3, h3]
+  obtain ⟨i1, i2⟩ := Ymq.Arith.invMod64_spec mm n (by rw [← hW64]; exact lt_trans e2 hnW)
+    (by rw [← hW64]; exact hnW) hn
+  unfold mgInv
+  rw [e1]
+  constructor
+  · intro hgx
+    obtain ⟨mi, f1, f2, f3⟩ := i1 (by rw [hg]; exact hgx)
+    obtain ⟨r, g1, g2, g3⟩ := mgMul_spec n ninv mi r2 hn hnW hninv f2 hr2
+    simp only [f1, g1]
+    refine ⟨r, rfl, g2, ?_⟩
+    -- r·W ≡ mi·r2, mm·W ≡ x, mm·mi ≡ 1  ⟹  r·x·W ≡ r2·W
+    have hA : r * W ≡ mi * r2 [MOD n] := g3
+    have hB : mm * W ≡ x [MOD n] := e3
+    have hC : mm * mi ≡ 1 [MOD n] := f3
+    have h1 : r * x * W ≡ r2 * W [MOD n] := by
+      calc r * x * W = (r * W) * x := by ring
+        _ ≡ (mi * r2) * x [MOD n] := hA.mul_right x
+        _ ≡ (mi * r2) * (mm * W) [MOD n] := (hB.symm).mul_left _
+        _ = (mm * mi) * (r2 * W) := by ring
+        _ ≡ 1 * (r2 * W) [MOD n] := hC.mul_right _
+        _ = r2 * W := by ring
+    exact Nat.ModEq.cancel_right_of_coprime hcop.symm h1
+  · intro hgx
+    simp only [i2 (by rw [hg]; exact hgx)]
+
+
+/-- non-vacuity / concrete values: n = 2^64 - 59 (above 2^63), r2 = R² mod n; a non-unit for n = 15. -/
+example :
+    mgInv 18446744073709551557 14694863923124558067 3481 12345 = some (some 7810541212902375536) ∧
+    7810541212902375536 * 12345 % 18446744073709551557 = 3481 ∧
+    mgInv 15 1229782938247303441 1 6 = some none := by decide +kernel
 
 end Word64
 
